@@ -810,13 +810,13 @@ fn main() {
         let single = vec![t.clone()];
         rt_episode(&mut rng, &single, max_rows, &mut rt, &mut cnt);
     }
-    for _ in 0..args.scale(500, 9000) {
+    for _ in 0..args.scale(380, 9000) {
         rt_episode(&mut rng, &pool, max_rows, &mut rt, &mut cnt);
     }
     for _ in 0..args.scale(120, 2500) {
         par_episode(&mut rng, &pool, max_rows, &mut rt, &mut cnt);
     }
-    for _ in 0..args.scale(500, 9000) {
+    for _ in 0..args.scale(360, 9000) {
         lv_episode(&mut rng, args.scale(24, 60), &mut lv, &mut cnt);
     }
     let n1 = rt.finish();
